@@ -6,7 +6,7 @@ from props import pyref
 class P(StreamProperty):
     pid = 'C03'
     module = 'OpenFecVerif.Props.C03'
-    theorems = ['C03_success_is_rank_test', 'C03_outcome_payload_free']
+    theorems = ['C03_success_is_rank_test', 'C03_outcome_payload_free', 'C03_solve_unique', 'C03_solve_sound', 'C03_solve_iff_full_rank']
     rule = ('LDPC decoder sessions followed by of_finish_decoding: all 2^n receive sets for n<=nmax over a grid (k 1..8, r 3..8, N1 3..5, several seeds), '
             'each in increasing / shuffled order and through both APIs, plus sampled blocks (k up to 600 quick / 5000 thorough) with loss rates around the threshold; '
             'oracle (independent of the model): completion after finish <=> the GF(2) rank condition "unknown columns of H have full column rank", computed in Python '
